@@ -125,4 +125,55 @@ example : (weightMoment ([⟨1, 0, 5⟩, ⟨1, 1, 8⟩] : List (Contrib ℚ)) 0)
     - weightMoment ([⟨1, 0, 5⟩, ⟨1, 1, 8⟩] : List (Contrib ℚ)) 1 * weightMoment ([⟨1, 0, 5⟩, ⟨1, 1, 8⟩] : List (Contrib ℚ)) 1 ≠ 0 := by
   simp [weightMoment, lsum, Distr.pow]
 
+
+/-! ### the per-radius scaling of the coded inverses (repair F72: `inverse(p / s) / s`, `s` the total weight at the radius)
+is exact in field arithmetic, degenerate branches included — it changes rounding only -/
+
+theorem solve2_scaled (p0 p1 p2 b0 b1 s : K) (hs : s ≠ 0) :
+    ((solve2 (p0 / s) (p1 / s) (p2 / s) b0 b1).1 / s, (solve2 (p0 / s) (p1 / s) (p2 / s) b0 b1).2 / s)
+      = solve2 p0 p1 p2 b0 b1 := by
+  have hd : p0 / s * (p2 / s) - p1 / s * (p1 / s) = (p0 * p2 - p1 * p1) / (s * s) := by field_simp
+  have hss : s * s ≠ 0 := mul_ne_zero hs hs
+  have e1 : ((p0 * p2 - p1 * p1) / (s * s) = 0) ↔ (p0 * p2 - p1 * p1 = 0) := by
+    rw [div_eq_zero_iff]; simp [hss]
+  have e2 : (p0 / s = 0) ↔ (p0 = 0) := by rw [div_eq_zero_iff]; simp [hs]
+  unfold solve2
+  simp only [hd, e1, e2, show (One.one : K) = 1 from rfl]
+  generalize hD : p0 * p2 - p1 * p1 = d
+  by_cases h : d = 0
+  · by_cases h0 : p0 = 0
+    · simp only [h, h0, if_true]; simp
+    · simp only [h, h0, if_true, if_false]
+      refine Prod.ext ?_ ?_
+      · simp only; field_simp
+      · simp
+  · simp only [h, if_false]
+    refine Prod.ext ?_ ?_ <;> (simp only; field_simp)
+
+theorem solve3_scaled (p0 p1 p2 p3 p4 b0 b1 b2 s : K) (hs : s ≠ 0) :
+    let r := solve3 (p0 / s) (p1 / s) (p2 / s) (p3 / s) (p4 / s) b0 b1 b2
+    (r.1 / s, r.2.1 / s, r.2.2 / s) = solve3 p0 p1 p2 p3 p4 b0 b1 b2 := by
+  intro r
+  have hs3 : s * s * s ≠ 0 := mul_ne_zero (mul_ne_zero hs hs) hs
+  have hd : p0 / s * (p2 / s * (p4 / s) - p3 / s * (p3 / s)) + p1 / s * (p2 / s * (p3 / s) - p1 / s * (p4 / s))
+      + p2 / s * (p1 / s * (p3 / s) - p2 / s * (p2 / s))
+      = (p0 * (p2 * p4 - p3 * p3) + p1 * (p2 * p3 - p1 * p4) + p2 * (p1 * p3 - p2 * p2)) / (s * s * s) := by field_simp
+  have e1 : ((p0 * (p2 * p4 - p3 * p3) + p1 * (p2 * p3 - p1 * p4) + p2 * (p1 * p3 - p2 * p2)) / (s * s * s) = 0) ↔
+      (p0 * (p2 * p4 - p3 * p3) + p1 * (p2 * p3 - p1 * p4) + p2 * (p1 * p3 - p2 * p2) = 0) := by
+    rw [div_eq_zero_iff]; simp [hs3]
+  have h2 := solve2_scaled p0 p1 p2 b0 b1 s hs
+  show (r.1 / s, r.2.1 / s, r.2.2 / s) = _
+  simp only [r]
+  unfold solve3
+  simp only [hd, e1, show (One.one : K) = 1 from rfl]
+  generalize hD : p0 * (p2 * p4 - p3 * p3) + p1 * (p2 * p3 - p1 * p4) + p2 * (p1 * p3 - p2 * p2) = d
+  by_cases h : d = 0
+  · simp only [h, if_true]
+    rw [← h2]; simp
+  · simp only [h, if_false]
+    refine Prod.ext ?_ (Prod.ext ?_ ?_) <;> (simp only; field_simp)
+
+example : ((solve2 ((6 : ℚ) / 3) (3 / 3) (9 / 3) 1 2).1 / 3, (solve2 ((6 : ℚ) / 3) (3 / 3) (9 / 3) 1 2).2 / 3)
+    = solve2 6 3 9 1 2 := solve2_scaled 6 3 9 1 2 3 (by norm_num)
+
 end PyAbel.C14
